@@ -263,8 +263,8 @@ def stored_bool(arg):
     return None
 
 
-def r4_oneway(ctx, prog):
-    r = ctx.rule('C02.R4', 'one-way flags: SET/COPY can never store the unprotecting value once the flag is protective', floor=9, engine='E1+E3 finite-domain path enumeration')
+def r4_oneway(ctx, prog, rule_id='C02.R4'):
+    r = ctx.rule(rule_id, 'one-way flags: SET/COPY can never store the unprotecting value once the flag is protective', floor=9, engine='E1+E3 finite-domain path enumeration')
     ops = {n: macro(prog, 'OBJECT_OP_' + n) for n in ('COPY', 'CREATE', 'DERIVE', 'GENERATE', 'SET', 'UNWRAP')}
     # (class, attribute, protective current value, forbidden stored value)
     for cls, attr, protective, forbidden in (('P11AttrSensitive', 'CKA_SENSITIVE', 1, False), ('P11AttrExtractable', 'CKA_EXTRACTABLE', 0, True),
